@@ -168,6 +168,8 @@ def run_case(case):
         except Exception as e:
             import traceback
 
+            if K.rooted_in_rejection(e):
+                return K.result("held", cell="rejected|lazy", nontrivial=False, obs={"rejected_by_writer": 1})
             viol.append({"key": "write-raises/%s" % type(e).__name__, "what": "session raised %s" % pz.exc_sig(e), "trace": traceback.format_exc()[-1200:]})
     cnt, cv = contracts.snapshot()
     for k, v in cnt.items():
